@@ -1,7 +1,7 @@
 (* C06/Properties.v — property theorems only (each closed by [exact lemma] and followed by
    [Print Assumptions]).  Model: C06/Model.v (the code after fix commits 3a7f18b, 811f017, 2c8a29b). *)
 From Coq Require Import String Permutation Morphisms Sorted.
-From RM Require Import C06.Model C06.GenModel C06.Proofs C06.Proofs2 C06.Proofs3 C06.Proofs4 C06.Proofs5 C06.Proofs6 C06.Proofs7 C06.Proofs8 C06.Proofs9 C06.Proofs10 C06.Proofs11 C06.Proofs12 C06.Driver C06.GenDriver Gen.UnwindConsts.
+From RM Require Import C06.Model C06.GenModel C06.Proofs C06.Proofs2 C06.Proofs3 C06.Proofs4 C06.Proofs5 C06.Proofs6 C06.Proofs7 C06.Proofs8 C06.Proofs9 C06.Proofs10 C06.Proofs11 C06.Proofs12 C06.Proofs13 C06.Driver C06.GenDriver Gen.UnwindConsts.
 Open Scope Z_scope.
 
 (* No Panic and no OutOfFuel: for ALL rule texts (arbitrary byte strings), every walker (any
@@ -504,3 +504,14 @@ Example c06_nonvacuous_deref :
   mem_read 4 2147483648 [1;0;0;0; 2;0;0;0] 2147483652 = Some 2 /\
   mem_read 4 2147483648 [1;0;0;0; 2;0;0;0] (2147483652 + 4294967296) = None.
 Proof. vm_compute. split; reflexivity. Qed.
+
+(* Several INIT records in one symbol file (front-end kind M): when the records' ranges are pairwise disjoint, the
+   record used for a lookup address is the one that covers it (none: no CFI), whatever the order of the records in the
+   file.  (Overlapping ranges are C08's subject: into_rangemap_safe.) *)
+Theorem c06_record_lookup :
+  (forall rs addr, disjoint_recs rs ->
+     (forall r, find_record rs addr = Some r <-> In r rs /\ cfi_covers r addr = true) /\
+     (find_record rs addr = None <-> forall r, In r rs -> cfi_covers r addr = false)) /\
+  (forall rs rs' addr, Permutation rs rs' -> disjoint_recs rs -> find_record rs addr = find_record rs' addr).
+Proof. exact (conj find_record_spec find_record_perm). Qed.
+Print Assumptions c06_record_lookup.
